@@ -1573,6 +1573,18 @@ Proof. unfold lr_phi. destruct (lr_le st); [lia|]. destruct (lr_remaining st); l
 Lemma lr_phi_le st : (lr_phi st <= lr_remaining st + 2)%nat.
 Proof. unfold lr_phi. destruct (lr_le st); [lia|]. destruct (lr_remaining st); lia. Qed.
 
+Lemma lr_phi_some st i :
+  lr_le st = Some i ->
+  lr_phi st = (length (lr_cur st) - S i + length (lr_rest st) + 2)%nat.
+Proof. intros H. unfold lr_phi, lr_remaining. rewrite H. reflexivity. Qed.
+
+Lemma lr_phi_none st :
+  lr_le st = None -> (0 < length (lr_rest st))%nat -> lr_phi st = (length (lr_rest st) + 2)%nat.
+Proof.
+  intros H Hpos. unfold lr_phi, lr_remaining. rewrite H.
+  destruct (length (lr_rest st)); [lia|reflexivity].
+Qed.
+
 Lemma read_line_phi B st st' :
   (0 < B)%nat -> lr_inv st -> read_line B st = Some st' ->
   lr_inv st' /\ (lr_phi st' < lr_phi st)%nat.
@@ -1608,7 +1620,6 @@ Proof.
   - (* refill; the invariant forces line_end_ = NULL *)
     assert (Hle : lr_le st = None).
     { destruct Hinv as [H|H]; [assumption|]. rewrite Hcur in H. exact H. }
-    rewrite Hle in Hrd.
     destruct (firstn B (lr_rest st)) as [|c chunk] eqn:Hch; [discriminate|].
     assert (Hlen : (length (c :: chunk) + length (skipn B (lr_rest st)) = length (lr_rest st))%nat).
     { rewrite <- Hch, <- app_length, firstn_skipn. reflexivity. }
@@ -1616,8 +1627,7 @@ Proof.
                       ltac:(right; right; cbn; lia) Hrd) as [Hi [Hlt|(_ & _ & Hc & _)]];
       [|discriminate].
     split; [assumption|].
-    pose proof (lr_phi_le st'). unfold lr_phi at 2. unfold lr_remaining at 2. rewrite Hle.
-    destruct (length (lr_rest st)) eqn:Hr; [cbn [length] in Hlen; lia|]. lia.
+    pose proof (lr_phi_le st'). rewrite (lr_phi_none st Hle) by (cbn [length] in Hlen; lia). lia.
   - destruct (lr_le st) as [i|] eqn:Hle.
     + (* advance *)
       assert (Hi : (i < length (lr_cur st))%nat).
@@ -1632,9 +1642,9 @@ Proof.
                               right; right; cbn; lia]) Hrd)
         as [Hi' [Hlt|(Hn & Hz & Hc & Hr)]].
       * split; [assumption|]. pose proof (lr_phi_le st').
-        unfold lr_phi at 2. unfold lr_remaining at 2. rewrite Hle. lia.
-      * split; [assumption|]. unfold lr_phi, lr_remaining. rewrite Hn, Hle.
-        unfold lr_remaining in Hz. rewrite Hn in Hz. rewrite Hz. lia.
+        rewrite (lr_phi_some st i Hle). lia.
+      * split; [assumption|]. rewrite (lr_phi_some st i Hle).
+        unfold lr_phi. rewrite Hn, Hz. lia.
     + (* refill *)
       destruct (firstn B (lr_rest st)) as [|c chunk] eqn:Hch; [discriminate|].
       assert (Hlen : (length (c :: chunk) + length (skipn B (lr_rest st)) = length (lr_rest st))%nat).
@@ -1643,8 +1653,7 @@ Proof.
                         ltac:(right; right; cbn; lia) Hrd) as [Hi [Hlt|(_ & _ & Hc & _)]];
         [|discriminate].
       split; [assumption|].
-      pose proof (lr_phi_le st'). unfold lr_phi at 2. unfold lr_remaining at 2. rewrite Hle.
-      destruct (length (lr_rest st)) eqn:Hr; [cbn [length] in Hlen; lia|]. lia.
+      pose proof (lr_phi_le st'). rewrite (lr_phi_none st Hle) by (cbn [length] in Hlen; lia). lia.
 Qed.
 
 Lemma load_loop_total B : (0 < B)%nat -> forall fuel seen ver st acc,
@@ -1692,4 +1701,159 @@ Proof.
   - split; [discriminate|intros ? ? [=]].
   - split; [discriminate|]. intros ents' b' [= <- <-]. assumption.
   - destruct H.
+Qed.
+
+(* ---------------------------------------------------------------------------------------- *)
+(** ** Whole invocations: Load, recompaction when Load asks for it, then appends *)
+
+Definition session_records (live : bytes -> bool) (R es : list entry) : list entry :=
+  if needs_of R then filter (fun e => live (e_out e)) (last_wins R) ++ es else R ++ es.
+
+(* [file] is a log written by ninja holding the records [R] (or does not exist yet) *)
+Definition holds (file : bytes) (R : list entry) : Prop :=
+  Forall wf_entry R /\ Forall (fits load_buf_size) R /\
+  ((file = [] /\ R = []) \/ file = log_header ++ concat (map render_entry R)).
+
+Lemma In_last_wins y es : In y (last_wins es) -> In y es.
+Proof. intros H. apply In_last_wins_latest in H. apply latest_In in H. tauto. Qed.
+
+Lemma holds_load file R : holds file R -> load_log file = loaded R.
+Proof.
+  intros (Hw & Hf & [[-> ->] | ->]).
+  - unfold load_log. rewrite load_small; [reflexivity| |reflexivity|cbn; lia].
+    pose proof load_buf_size_ge. lia.
+  - apply (C08_roundtrip_buf load_buf_size R load_buf_size_ge Hw Hf).
+Qed.
+
+Lemma session_step live file R es :
+  holds file R -> Forall wf_entry es -> Forall (fits load_buf_size) es ->
+  holds (session live file es) (session_records live R es).
+Proof.
+  intros Hh Hwe Hfe. pose proof (holds_load file R Hh) as Hl.
+  destruct Hh as (Hw & Hf & Hfile).
+  unfold session, session_records. rewrite Hl. unfold loaded.
+  destruct (needs_of R).
+  - assert (HwF : Forall wf_entry (filter (fun e => live (e_out e)) (last_wins R))).
+    { apply Forall_filter. rewrite Forall_forall in *. intros y Hy. apply Hw, In_last_wins, Hy. }
+    assert (HfF : Forall (fits load_buf_size) (filter (fun e => live (e_out e)) (last_wins R))).
+    { apply Forall_filter. rewrite Forall_forall in *. intros y Hy. apply Hf, In_last_wins, Hy. }
+    split; [apply Forall_app; split; assumption|]. split; [apply Forall_app; split; assumption|].
+    right. unfold recompact. rewrite record_append_nonempty by (rewrite log_header_eq; discriminate).
+    rewrite map_app, concat_app, app_assoc. reflexivity.
+  - split; [apply Forall_app; split; assumption|]. split; [apply Forall_app; split; assumption|].
+    right. destruct Hfile as [[-> ->] | ->].
+    + reflexivity.
+    + rewrite record_append_nonempty by (rewrite log_header_eq; discriminate).
+      rewrite map_app, concat_app, app_assoc. reflexivity.
+Qed.
+
+Definition run_sessions (ss : list ((bytes -> bool) * list entry)) (file : bytes) : bytes :=
+  fold_left (fun f s => session (fst s) f (snd s)) ss file.
+
+Definition run_records (ss : list ((bytes -> bool) * list entry)) (R : list entry) : list entry :=
+  fold_left (fun r s => session_records (fst s) r (snd s)) ss R.
+
+Lemma run_sessions_holds ss : forall file R,
+  holds file R ->
+  Forall wf_entry (concat (map snd ss)) -> Forall (fits load_buf_size) (concat (map snd ss)) ->
+  holds (run_sessions ss file) (run_records ss R).
+Proof.
+  induction ss as [|[live es] ss IH]; intros file R Hh Hw Hf; [assumption|].
+  cbn [map concat snd] in Hw, Hf.
+  apply Forall_app in Hw. destruct Hw as [Hw1 Hw2]. apply Forall_app in Hf. destruct Hf as [Hf1 Hf2].
+  change (run_sessions ((live, es) :: ss) file) with (run_sessions ss (session live file es)).
+  change (run_records ((live, es) :: ss) R) with (run_records ss (session_records live R es)).
+  apply IH; [apply session_step; assumption|assumption|assumption].
+Qed.
+
+Lemma latest_app n a b :
+  latest n (a ++ b) = match latest n b with Some x => Some x | None => latest n a end.
+Proof. unfold latest. rewrite rev_app_distr. apply lookup_out_app. Qed.
+
+Lemma lookup_rev_nodup n l : nodup_out l -> lookup_out n (rev l) = lookup_out n l.
+Proof.
+  unfold nodup_out. induction l as [|x l IH]; intros Hnd; [reflexivity|].
+  cbn [map] in Hnd. inversion Hnd as [|? ? Hnotin Hnd']; subst.
+  cbn [rev]. rewrite lookup_out_app, IH by assumption. cbn [lookup_out].
+  destruct (bytes_eqb_spec (e_out x) n) as [Heq|_].
+  - assert (Hno : has_out n l = false).
+    { destruct (has_out n l) eqn:Hh; [|reflexivity]. apply has_out_In in Hh. congruence. }
+    rewrite has_out_lookup in Hno. destruct (lookup_out n l); [discriminate|reflexivity].
+  - destruct (lookup_out n l); reflexivity.
+Qed.
+
+Lemma lookup_filter_live (live : bytes -> bool) n l :
+  lookup_out n (filter (fun e => live (e_out e)) l) = if live n then lookup_out n l else None.
+Proof.
+  induction l as [|x l IH]; [destruct (live n); reflexivity|]. cbn [filter lookup_out].
+  destruct (bytes_eqb_spec (e_out x) n) as [Heq|Hne].
+  - rewrite Heq. destruct (live n) eqn:Hl.
+    + cbn [lookup_out]. rewrite Heq, bytes_eqb_refl. reflexivity.
+    + rewrite IH, Hl. reflexivity.
+  - destruct (live (e_out x)); [|exact IH]. cbn [lookup_out].
+    destruct (bytes_eqb_spec (e_out x) n); [contradiction|exact IH].
+Qed.
+
+(* the latest record of an output in the compacted table *)
+Lemma latest_compacted live n R :
+  latest n (filter (fun e => live (e_out e)) (last_wins R)) = if live n then latest n R else None.
+Proof.
+  unfold latest at 1. rewrite lookup_rev_nodup by (apply nodup_filter, nodup_last_wins).
+  rewrite lookup_filter_live, lookup_last_wins. reflexivity.
+Qed.
+
+Lemma run_records_inv ss : forall R All,
+  (forall n, latest n R = latest n All \/ latest n R = None) ->
+  (forall n, latest n (run_records ss R) = latest n (All ++ concat (map snd ss)) \/
+             latest n (run_records ss R) = None).
+Proof.
+  induction ss as [|[live es] ss IH]; intros R All Hinv n.
+  - cbn [run_records fold_left map concat]. rewrite app_nil_r. apply Hinv.
+  - cbn [run_records fold_left map concat fst snd]. rewrite app_assoc.
+    apply IH. clear n. intros n. unfold session_records.
+    destruct (needs_of R); rewrite !latest_app.
+    + destruct (latest n es); [left; reflexivity|]. rewrite latest_compacted.
+      destruct (live n); [apply Hinv|right; reflexivity].
+    + destruct (latest n es); [left; reflexivity|]. apply Hinv.
+Qed.
+
+Lemma run_records_live ss : forall R All n,
+  (forall s, In s ss -> fst s n = true) ->
+  latest n R = latest n All ->
+  latest n (run_records ss R) = latest n (All ++ concat (map snd ss)).
+Proof.
+  induction ss as [|[live es] ss IH]; intros R All n Hlive Hinv.
+  - cbn [run_records fold_left map concat]. rewrite app_nil_r. apply Hinv.
+  - cbn [run_records fold_left map concat fst snd]. rewrite app_assoc.
+    apply IH; [intros s Hs; apply Hlive; right; assumption|].
+    unfold session_records. destruct (needs_of R); rewrite !latest_app.
+    + destruct (latest n es); [reflexivity|]. rewrite latest_compacted.
+      rewrite (Hlive (live, es) (or_introl eq_refl)). apply Hinv.
+    + destruct (latest n es); [reflexivity|]. apply Hinv.
+Qed.
+
+(* Any number of invocations, each with its own manifest/disk state [live] and its records,
+   recompacting whenever Load asks for it: the final log loads; every entry of the table is the
+   latest record ever written for its output; and an output that was live at every invocation has
+   exactly its latest record in the table. *)
+Theorem C08_sessions_recompact (ss : list ((bytes -> bool) * list entry)) :
+  let all := concat (map snd ss) in
+  Forall wf_entry all -> Forall (fits load_buf_size) all ->
+  exists ents b,
+    load_log (run_sessions ss []) = LOk ents b /\
+    (forall y, In y ents -> latest (e_out y) all = Some y) /\
+    (forall n, (forall s, In s ss -> fst s n = true) -> lookup_out n ents = latest n all).
+Proof.
+  intros all Hw Hf.
+  assert (Hh0 : holds [] []).
+  { split; [constructor|]. split; [constructor|]. left. split; reflexivity. }
+  pose proof (run_sessions_holds ss [] [] Hh0 Hw Hf) as Hh.
+  rewrite (holds_load _ _ Hh). unfold loaded. eexists. eexists. split; [reflexivity|].
+  split.
+  - intros y Hy. apply In_last_wins_latest in Hy.
+    destruct (run_records_inv ss [] [] (fun n => or_introl eq_refl) (e_out y)) as [H|H].
+    + rewrite <- H. assumption.
+    + congruence.
+  - intros n Hlive. rewrite lookup_last_wins.
+    apply (run_records_live ss [] [] n Hlive eq_refl).
 Qed.
